@@ -707,10 +707,11 @@ class TimeStamp:
         if dup.get_days() > 1:
             d = int(dup.get_days())
             dup -= Time(d, TimeUnit.DAY)
-        dup -= Time(self.hour, TimeUnit.HOUR)
+        dup += Time(self.hour, TimeUnit.HOUR)
         dup += Time(self.minute, TimeUnit.MINUTE)
         dup += Time(self.second, TimeUnit.SECOND)
-        hour_of_day = int(dup.get_hours())
+        # Rounding guards against floating-point error in the unit conversions
+        hour_of_day = int(round(dup.get_hours(), 6)) % 24
         return hour_of_day
 
     def __sub__(self, other):
